@@ -7,10 +7,11 @@ _PLANNERS = ['RRT', 'RRT-intermediate', 'SST', 'EST', 'KPIECE1', 'PDST', 'Syclop
 _SYSTEMS = ['point', 'car', 'dint']
 
 
-def _floors(per_planner, per_combo, controls, steps, exact, approx):
+def _floors(per_planner, per_combo, controls, steps, exact, approx, creeping):
     f = {'c02_controls_replayed': controls, 'c02_steps_replayed': steps, 'c02_multistep_controls': controls // 10,
          'c02_dint_controls_where_long_step_differs': controls // 100, 'c02_start_checks': per_planner * 8,
-         'c02_goal_checks_exact': exact * 8, 'c02_goal_checks_approx': approx * 4}
+         'c02_goal_checks_exact': exact * 8, 'c02_goal_checks_approx': approx * 4,
+         'c02_cases_creeping_system': creeping, 'c02_controls_with_steps_below_float_eps': creeping * 50}
     for p in _PLANNERS:
         f['c02_replayed:' + p] = per_planner
         f['c02_solutions_exact:' + p] = exact
@@ -23,19 +24,23 @@ def _floors(per_planner, per_combo, controls, steps, exact, approx):
 reg('C02', engine='h_control',
     rule='one case = one control planner variant (RRT, RRT-intermediate, SST, EST, KPIECE1, PDST, SyclopRRT, SyclopEST) on '
          'one generated system (point / car / Euler double integrator; control bounds, step size, min/max duration, '
-         'directed-sampler k drawn) in one generated obstacle world with drawn start(s)/goal/threshold, planner '
+         'directed-sampler k drawn; 3% "creeping" systems whose propagation steps are closer than float epsilon) in one '
+         'generated obstacle world with drawn start(s)/goal/threshold, planner '
          'parameters and library seed, run under an evaluation-count termination condition (1 of 5 cases as two '
          'consecutive solve() calls); every path registered in the problem definition is replayed control by control '
          'from its recorded states; non-trivial = a registered path with >= 2 controls was replayed; distinct = '
          'distinct hash of (planner, system, world, start/goal, parameters, seed)',
-    floors={'quick': _floors(per_planner=200, per_combo=60, controls=120000, steps=400000, exact=80, approx=35),
-            'thorough': _floors(per_planner=400, per_combo=80, controls=700000, steps=2000000, exact=130, approx=50)},
+    floors={'quick': _floors(per_planner=200, per_combo=60, controls=120000, steps=400000, exact=80, approx=35,
+                             creeping=50),
+            'thorough': _floors(per_planner=800, per_combo=250, controls=450000, steps=1400000, exact=350, approx=100,
+                                creeping=200)},
     level_text='every solution path that any of the eight control-planner variants registered on the generated '
                '(system, world, seed) tuples was re-executed with an independent copy of the propagator: durations are '
                'whole step counts, controls lie in bounds, every replayed step is valid, replayed states equal the '
                'recorded ones (bit-identical is expected and counted), the first state is a valid start, the last state '
                'satisfies the goal unless flagged approximate, and flag, status and reported difference agree',
     technique='runtime monitoring: independent step-wise replay oracle over generated planning problems under ASan+UBSan',
+    args={'quick': {}, 'thorough': {}},   # --slowfrac f : fraction of creeping systems (default 0.03)
     assumptions=['the propagator and validity checker are pure functions owned by the harness (the same code is handed to '
                  'the library and used for the replay), tolerance 1e-9*(1+extent) per DESIGN 2.4',
                  'min/max control duration is not demanded of recorded durations (KPIECE1 and PDST split motions at cell '
